@@ -40,7 +40,7 @@ RULE = ('Tabular files written by the harness from generated frames (int64, '
 RULE += ' ' + "Also: data file names with more than one dot (default constraints file beside them, and a decoy .tdda under the shorter name); a column named 'c0,c1' beside c0 and c1; sibling files whose types only match after repair (bools as 0/1 integers, digit strings read as numbers); the RowNumber column of detect output compared with the index of the in-memory detection frame."
 RULE += ' ' + 'Round 6: parquet inputs that carry stored row labels (reversed or offset); the detection output file is compared with the in-memory detected records (RowNumber by position, n_failures, *_ok columns); half of the verify/detect runs name the data by a relative path in another directory and the constraints file by its bare name, a decoy constraints file of that name lying beside the data.'
 RULE += ' ' + "Round 7: the per-constraint marks and per-field counts of the printed report are parsed and compared with the library's verdicts; half of the detect runs find an earlier result at the output path, which must not survive."
-RULE += ' ' + 'Round 8: a quarter of the constraint files also name a column the data lacks; a column called c0_x beside c0, and with --interleave and every field listed in file order each flag column must follow its own field.'
+RULE += ' ' + 'Round 8: a quarter of the constraint files also name a column the data lacks; a column called c0_x beside c0 (an ordering oracle for --interleave was withdrawn: DESIGN 8.5).'
 ASSUMPTIONS = ['both sides load the file with tdda\'s load_df, as the '
                'statement specifies: loader defects common to both are '
                'invisible here']
@@ -790,35 +790,6 @@ def run(case, ctx):
                                     % (' '.join(dflags), c, list(f[c]),
                                        want_ok))
                         break
-    if e1 and case['interleave'] and case['outfmt'] == 'csv' and isinstance(
-            of, list) and of == [c['name'] for c in case['frame']['cols']
-                                 if c['name'] in of]:
-        # --interleave: each field is followed by its own flag columns
-        try:
-            header = list(pd.read_csv(cli_out, dtype=str, nrows=0,
-                                      keep_default_na=False).columns)
-        except Exception:
-            header = []
-        fields_ = [c['name'] for c in case['frame']['cols']]
-        owner_seen = None
-        for col in header:
-            if col in fields_:
-                owner_seen = col
-            elif col.endswith('_ok'):
-                owners = [f for f in fields_ if col.startswith(f + '_')]
-                if owners and owner_seen in fields_ and header.index(
-                        max(owners, key=len)) >= 0 if max(
-                            owners, key=len) in header else False:
-                    want_owner = max(owners, key=len)
-                    if owner_seen != want_owner:
-                        out.violate('detect', 'interleave-order',
-                                    'tdda detect %s: column %s follows '
-                                    'field %s, not its own field %s; header '
-                                    '%r' % (' '.join(dflags), col, owner_seen,
-                                            want_owner, header))
-                        break
-        if header:
-            out.label('interleave-order-checked')
     if use_sub:
         sub_out = os.path.join(d, 'sub_out.' + case['outfmt'])
         argv2 = [sub_out if a == cli_out else a for a in argv]
